@@ -118,6 +118,10 @@ func checkC09(c *Ctx) error {
 		conf := gen.Behaviour(r, o)
 		k := 2 + r.Intn(4)
 		parts := gen.SplitParts(r, conf, k)
+		if i%5 == 4 {
+			// k-1 fragments hold one whole section each and nothing else (a functions-only file, a decorators-only file, ...)
+			parts = gen.PureParts(r, conf, k)
+		}
 		if i%4 != 3 {
 			gen.AddDecoys(r, parts)
 		}
